@@ -855,6 +855,15 @@ fn c15_check_entry(e: &rbpf::disassembler::HLInsn, i: &I, hi: Option<i32>) -> Op
     if let Kind::End { to_be } = k {
         names.push(if to_be { "be".into() } else { "le".into() });
     }
+    if matches!(k, Kind::Call) {
+        // both call kinds share opcode 0x85: "the mnemonic of that opcode" is either spelling for the
+        // entry's name (the text, which must assemble to the right kind, is checked below)
+        for n in ["call", "callx"] {
+            if !names.iter().any(|x| x == n) {
+                names.push(n.into());
+            }
+        }
+    }
     if matches!(k, Kind::Xadd(_)) {
         // the assembler has no mnemonic for the atomic add, so the disassembler's own name is the
         // only definition: it must be one name per opcode, whatever the operand fields hold
@@ -1745,7 +1754,26 @@ pub fn run_c13(s: &mut Sink) {
                     }
                     text.push_str(trail);
                     text.push_str("exit");
-                    c13_check(s, &text, &Some(want.clone()), &format!("whitespace:{}", m.name));
+                    // the documented syntax: one instruction per line (LF or CR LF), blanks (space, tab)
+                    // after the mnemonic, optional blanks after a comma, blank lines anywhere. Anything
+                    // else the parser happens to tolerate today (an instruction continued on the next
+                    // line, two instructions on one line, a lone CR) may be refused - but if it is
+                    // accepted the bytes must be the denoted ones
+                    let same_line = |w: &str| !w.contains('\n') && !w.contains('\r');
+                    let documented = lead != "\r"
+                        && (ops.is_empty() || (!after_mn.is_empty() && same_line(after_mn)))
+                        && (1..ops.len()).all(|k| same_line(WS[choice[1 + k]]))
+                        && trail.contains('\n');
+                    if documented {
+                        c13_check(s, &text, &Some(want.clone()), &format!("whitespace:{}", m.name));
+                    } else {
+                        match catch(|| rbpf::assembler::assemble(&text)) {
+                            Ok(Ok(b)) if b == want => s.outcome("tolerated-layout-accepted", 1),
+                            Ok(Err(_)) => s.outcome("tolerated-layout-refused", 1),
+                            Ok(Ok(b)) => s.violation(&format!("asm/whitespace:{}/bytes-mismatch", m.name), format!("assemble({text:?}) = {} want {} (or an error)", hex(&b), hex(&want)), json!({"kind":"asm-lenient","text":text,"want":hex(&want)})),
+                            Err(m2) => s.violation(&format!("asm/whitespace:{}/{}", m.name, panic_class(&m2)), format!("assemble({text:?}) panicked: {m2}"), json!({"kind":"asm-lenient","text":text,"want":hex(&want)})),
+                        }
+                    }
                     n += 1;
                 }
                 // next choice vector
@@ -1805,6 +1833,17 @@ pub fn run_c13(s: &mut Sink) {
         c13_check(s, "", &Some(vec![]), "empty");
         c13_check(s, "  \n ", &Some(vec![]), "empty");
         s.count("evaluations", 2);
+    }
+}
+
+pub fn replay_asm_lenient(v: &Value) -> Vec<String> {
+    let text = v["text"].as_str().unwrap();
+    let want = unhex(v["want"].as_str().unwrap());
+    match catch(|| rbpf::assembler::assemble(text)) {
+        Ok(Ok(b)) if b == want => vec![],
+        Ok(Err(_)) => vec![],
+        Ok(Ok(b)) => vec![format!("asm/whitespace/bytes-mismatch: assemble({text:?}) = {} want {} (or an error)", hex(&b), hex(&want))],
+        Err(m) => vec![format!("asm/whitespace/panic: assemble({text:?}) panicked: {m}")],
     }
 }
 
